@@ -216,7 +216,7 @@ def main(tier, seed):
     lib.build_driver()
     lib.build_harness()
     # 3. cases: corpus first, then generated
-    n = lib.ncases(150 if tier == "quick" else 15000)
+    n = lib.ncases(220 if tier == "quick" else 15000)
     rng = random.Random(seed)
     d = lib.casedir(PID)
     insts = lib.load_corpus(PID) + [instgen.gen_instance(rng) for _ in range(n)]
